@@ -8,7 +8,8 @@ use std::ops::Bound;
 use std::ptr::NonNull;
 
 use any_vec::any_value::{
-    AnyValue, AnyValueCloneable, AnyValueMut, AnyValueRaw, AnyValueSizeless, AnyValueTypeless, AnyValueTypelessMut,
+    AnyValue, AnyValueCloneable, AnyValueMut, AnyValueRaw, AnyValueSizeless, AnyValueSizelessRaw, AnyValueTypeless, AnyValueTypelessMut,
+    AnyValueTypelessRaw,
     AnyValueWrapper, Unknown,
 };
 use any_vec::mem::{Empty, Stack, StackN};
@@ -22,7 +23,7 @@ use crate::reg;
 use crate::reloc::Reloc;
 
 #[derive(Clone, Debug)]
-pub enum Src { W(u8), R(u8), L { v: usize, i: usize, d: u8 } }
+pub enum Src { W(u8), R(u8), S(u8), Y(u8), L { v: usize, i: usize, d: u8 } }
 #[derive(Clone, Debug)]
 pub enum Sink { Drop, Dc(u8), Forget, Push(usize), Ins(usize, usize), Lazy(usize, usize), Swap(u8), SwapRaw(u8), Info }
 #[derive(Clone, Copy, Debug)]
@@ -419,6 +420,23 @@ macro_rules! impl_kind {
                 match at { None => self.v.push(raw), Some(i) => self.v.insert(i, raw) }
                 slot.taken = true;
             }
+            /// `push_unchecked` / `insert_unchecked` of a raw pointer that carries no type (and, `sizeless`, no size): the
+            /// caller vouches for the type, so the script may only offer the vector's own element type
+            fn push_u<T: Elem>(&mut self, at: Option<usize>, sizeless: bool) {
+                if self.v.element_typeid() != TypeId::of::<T>() { panic!("harness: bad-op unchecked push of another type"); }
+                let mut slot = RawSlot::<T>::new();
+                let p = unsafe { NonNull::new_unchecked(&mut *slot.val as *mut T as *mut u8) };
+                unsafe {
+                    if sizeless {
+                        let raw = AnyValueSizelessRaw::new(p);
+                        match at { None => self.v.push_unchecked(raw), Some(i) => self.v.insert_unchecked(i, raw) }
+                    } else {
+                        let raw = AnyValueTypelessRaw::new(p, std::mem::size_of::<T>());
+                        match at { None => self.v.push_unchecked(raw), Some(i) => self.v.insert_unchecked(i, raw) }
+                    }
+                }
+                slot.taken = true;
+            }
             fn tpush_t<T: Elem>(&mut self, at: Option<usize>) {
                 let x = T::make(reg::fresh());
                 let mut tv = self.v.downcast_mut::<T>().expect("harness: own type");
@@ -667,6 +685,8 @@ macro_rules! impl_kind {
                 match src {
                     Src::W(t) => dispatch_tag!(F, *t, [self.push_w], {}, (None)),
                     Src::R(t) => dispatch_tag!(F, *t, [self.push_r], {}, (None)),
+                    Src::S(t) => dispatch_tag!(F, *t, [self.push_u], {}, (None, true)),
+                    Src::Y(t) => dispatch_tag!(F, *t, [self.push_u], {}, (None, false)),
                     Src::L { .. } => unreachable!(),
                 }
             }
@@ -674,6 +694,8 @@ macro_rules! impl_kind {
                 match src {
                     Src::W(t) => dispatch_tag!(F, *t, [self.push_w], {}, (Some(i))),
                     Src::R(t) => dispatch_tag!(F, *t, [self.push_r], {}, (Some(i))),
+                    Src::S(t) => dispatch_tag!(F, *t, [self.push_u], {}, (Some(i), true)),
+                    Src::Y(t) => dispatch_tag!(F, *t, [self.push_u], {}, (Some(i), false)),
                     Src::L { .. } => unreachable!(),
                 }
             }
@@ -798,6 +820,7 @@ macro_rules! impl_kind {
                                 items.push(b);
                                 slots.push((k, *t, slot));
                             }
+                            Src::S(_) | Src::Y(_) => panic!("harness: bad-op unchecked raw pointers are not splice items"),
                             Src::L { v, i, d } => {
                                 let b = env.vecs[*v].borrow();
                                 // keep the source borrowed for the rest of this call
